@@ -1,7 +1,121 @@
 import Mutagen.Driver.Util
+import Mutagen.Model.Lifecycle
 namespace Mutagen.Driver.C29
+open Mutagen.Driver Mutagen.Model.Lifecycle
 
-/-- Model-side handler for one line of the C29 correspondence stream. -/
-def handle (_line : String) : String := "unimplemented"
+/-!
+Trace validation. Line: `w=<0|1> <event> … | <observed final disk state>`
+
+* `c<t>:<op>` / `r<t>:<op>:<res>` — a client call is issued / returns; ops
+  `create0 create1 pause resume flushw flushn reset term restart`, results
+  `ok dis pau nsy lost nom`;
+* endpoint events: `cA cB` connect, `xA xB` shutdown, `pA+ pA-` poll start/end,
+  `sA+<full><anc>` scan start, `sA-<ok>` scan end, `gA` stage, `uA` supply,
+  `tA+ tA-` transition start/end (and the same with `B`).
+
+The journal is accepted iff it is the visible trace of a run of the model
+(subset construction over the invisible steps). Output: `accept <final>` when
+the observed final disk state is one the accepted runs can end in.
+-/
+
+def parseOp : String → Option Op
+  | "create0" => some (.create false) | "create1" => some (.create true)
+  | "pause" => some .pause | "resume" => some .resume
+  | "flushw" => some (.flush true) | "flushn" => some (.flush false)
+  | "reset" => some .reset | "term" => some .terminate | "restart" => some .restart
+  | _ => none
+
+def parseRes : String → Option Res
+  | "ok" => some .ok | "dis" => some .disabled | "pau" => some .paused
+  | "nsy" => some .notSync | "lost" => some .lost | "nom" => some .noMatch
+  | _ => none
+
+def parseSide : Char → Option Side
+  | 'A' => some .alpha | 'B' => some .beta | _ => none
+
+def parseBit : Char → Option Bool
+  | '0' => some false | '1' => some true | _ => none
+
+def parseEv (s : String) : Option Ev :=
+  match s.toList with
+  | ['c', x] => (parseSide x).map Ev.conn
+  | ['x', x] => (parseSide x).map Ev.shut
+  | ['p', x, '+'] => (parseSide x).map Ev.pollS
+  | ['p', x, '-'] => (parseSide x).map Ev.pollE
+  | ['s', x, '+', f, a] => do pure (Ev.scanS (← parseSide x) (← parseBit f) (← parseBit a))
+  | ['s', x, '-', o] => do pure (Ev.scanE (← parseSide x) (← parseBit o))
+  | ['g', x] => (parseSide x).map Ev.stage
+  | ['u', x] => (parseSide x).map Ev.supply
+  | ['t', x, '+'] => (parseSide x).map Ev.transS
+  | ['t', x, '-'] => (parseSide x).map Ev.transE
+  | _ => none
+
+def parseLabel (s : String) : Option Label :=
+  match s.splitOn ":" with
+  | [c, op] =>
+    match c.toList with
+    | 'c' :: ds => do pure (.call (← (String.ofList ds).toNat?) (← parseOp op))
+    | _ => none
+  | [r, op, res] =>
+    match r.toList with
+    | 'r' :: ds => do pure (.ret (← (String.ofList ds).toNat?) (← parseOp op) (← parseRes res))
+    | _ => none
+  | [e] => (parseEv e).map Label.ep
+  | _ => none
+
+def insertNew (acc : List State) (s : State) : List State × Bool :=
+  if acc.contains s then (acc, false) else (s :: acc, true)
+
+/-- Closure under invisible steps. -/
+def closure : Nat → List State → List State → List State
+  | 0, acc, _ => acc
+  | _, acc, [] => acc
+  | fuel + 1, acc, s :: work =>
+    let next := (succ s).filterMap fun (l, s') => if l == .tau then some s' else none
+    let (acc, work) := next.foldl (init := (acc, work)) fun (acc, work) s' =>
+      let (acc', fresh) := insertNew acc s'
+      (acc', if fresh then s' :: work else work)
+    closure fuel acc work
+
+def dedup (l : List State) : List State := l.foldl (fun acc s => (insertNew acc s).1) []
+
+def closeSet (l : List State) : List State :=
+  let l := dedup l
+  closure 100000 l l
+
+def advance (cur : List State) (lab : Label) : List State :=
+  let next := match lab with
+    | .call t op => cur.filterMap fun s => doCall s t op
+    | _ => cur.flatMap fun s => (succ s).filterMap fun (l, s') => if l == lab then some s' else none
+  closeSet next
+
+def summary (s : State) : String :=
+  let sess := match s.sess with | none => "n" | some true => "p" | some false => "u"
+  let arch := match s.arch with | none => "n" | some false => "e" | some true => "f"
+  s!"sess={sess} arch={arch}"
+
+def validate : List State → Nat → List String → String ⊕ List State
+  | cur, _, [] => .inr cur
+  | cur, i, tok :: rest =>
+    match parseLabel tok with
+    | none => .inl s!"bad-token@{i}:{tok}"
+    | some lab =>
+      let next := advance cur lab
+      if next.isEmpty then .inl s!"reject@{i}:{tok}" else validate next (i + 1) rest
+
+def handle (line : String) : String :=
+  match line.splitOn " | " with
+  | [journal, final] =>
+    match fields journal with
+    | w :: toks =>
+      let watch := w == "w=1"
+      match validate (closeSet [init watch]) 0 toks with
+      | .inl msg => msg
+      | .inr states =>
+        let sums := (states.map summary).eraseDups
+        if sums.contains final then s!"accept {final}"
+        else s!"accept-but-final {sums}"
+    | [] => "bad-op"
+  | _ => "bad-op"
 
 end Mutagen.Driver.C29
